@@ -4,7 +4,7 @@
    quantified: no law about them is used. *)
 From CSL Require Import Base.Prelude Cbor.Head Cbor.Item Cbor.ItemProofs
   Fixed.CborEv Fixed.CborEvProofs Fixed.DatumBytes Fixed.DatumBytesProofs Fixed.FixedTx Fixed.FixedTxProofs
-  Fixed.FuelProofs Fixed.FixedBlock Fixed.FixedBlockProofs.
+  Fixed.FuelProofs Fixed.FixedBlock Fixed.FixedBlockProofs Fixed.WfPreservation.
 Local Open Scope N_scope.
 
 (* the byte-range capture (deserilized_with_orig_bytes) returns exactly the bytes its inner reader consumed *)
@@ -212,7 +212,23 @@ Theorem C04_block_hash_old_refuted :
 Proof. exact old_block_hash_refuted. Qed.
 Print Assumptions C04_block_hash_old_refuted.
 
+(* well-formedness is preserved through the operations: input a string of bytes (< 256, shorter than 2^64) whose
+   kept witness slices are well-formed items; any operations other than set_witness_set whose added / signed
+   witnesses are byte strings; then the witness set written back is one well-formed definite map holding
+   exactly the written entries *)
+Theorem C04_witness_map_wf_after_ops :
+  forall (H : bytes -> bytes) (sign_vkey : bytes -> bytes -> vkw) (sign_boot : bool -> bytes -> bytes -> bw),
+  (forall k h, vkw_ok (sign_vkey k h) = true) -> (forall d k h, bw_ok (sign_boot d k h) = true) ->
+  forall bs tx rest ops,
+  good bs -> decode_fixed H bs = Ok (tx, rest) -> raws_wf (ft_wits tx) -> Forall op_ok ops ->
+  N.of_nat (length bs + length ops) < two64 ->
+  let w' := ft_wits (run_ops H sign_vkey sign_boot ops tx) in
+  item_wf (encode_wits w') = true /\ map_slices (encode_wits w') = Some (entries w', []).
+Proof. exact fixed_witness_map_wf_after_ops. Qed.
+Print Assumptions C04_witness_map_wf_after_ops.
+
 Check sample_tx_accepted.
+Check wf_after_ops_premises.
 Check versioned_block_example.
 Check sig_ops_example.
 Check datum_example.
